@@ -377,6 +377,269 @@ def check_facts(ctx, results):
         ctx.discharged.append(ob)
 
 
+
+# ------------------------------------------------------------------ growth: banded products of beads
+BDB_HEADER = """From Coq Require Import ZArith List Bool.
+From PB Require Import lib.SumZ lib.Arr lib.CaseUtil C10.BeadsModel.
+Import ListNotations.
+Open Scope Z_scope.
+Definition case_t := ((Z * Z * Z * Z * bool) * list (list Z) * list (list Z) * list (list Z) * list (list Z))%type.
+(* the kernel's cells and the wrapper's output (with the completion loop) are the model's *)
+Definition ok (cs : case_t) : bool :=
+  let '((al, au, bl, bu, sym), a, b, ekernel, ewrapper) := cs in
+  let A := of_rows a in let B := of_rows b in
+  let n := nc A in
+  let cu := c_upper au bu n in let cl := c_lower al bl n in
+  zll_eqb (tab (kernel A B al au bl bu cu n (if sym then 0 else al + bl) (cl + cu + 1))) ekernel
+  && zll_eqb (tab (banded_dot_banded A B al au bl bu sym)) ewrapper.
+"""
+
+
+def gen_bdb_cases(ctx):
+    rng = ctx.rng
+    cases = []
+    for k in range(ctx.n(60, 240)):
+        n = rng.choice([1, 2, 3, 3, 4, 5, 6, 7, 9, 12])
+        sym = rng.random() < 0.5
+        if sym:
+            # what beads does: symmetric band matrices with equal lower/upper counts
+            al = au = rng.randint(0, 3)
+            bl = bu = rng.randint(0, 3)
+            if al + bl > 2 * n - 1:
+                continue
+        else:
+            al, au, bl, bu = (rng.randint(0, 3) for _ in range(4))
+
+        def band(l, u, symm):
+            rows = [[rng.randint(-5, 5) for _ in range(n)] for _ in range(l + u + 1)]
+            if symm:   # LAPACK storage of a symmetric matrix: ab[u + o, j] = ab[u - o, j + o]
+                for o in range(1, l + 1):
+                    for j in range(n):
+                        rows[u + o][j] = rows[u - o][j + o] if j + o < n else 0
+            return rows
+        same = sym and rng.random() < 0.5 and al == bl
+        a = band(al, au, sym)
+        b = a if same else band(bl, bu, sym)
+        cases.append({'id': f'k{len(cases)}', 'n': n, 'al': al, 'au': au, 'bl': bl, 'bu': bu, 'sym': int(sym), 'a': a, 'b': b})
+    return cases
+
+
+def dense_of_bands(rows, l, u, n):
+    A = [[0] * n for _ in range(n)]
+    for i in range(n):
+        for j in range(n):
+            if -u <= i - j <= l:
+                A[i][j] = int(rows[u + i - j][j])
+    return A
+
+
+def check_bdb(ctx, cases, results):
+    ob = 'correspondence:_numba_banded_dot_banded/_banded_dot_banded (numba, py_func, no-numba = model; = dense product)'
+    ctx.obligations.append(ob)
+    good = True
+    lits = []
+    for case in cases:
+        n, al, au, bl, bu, sym = (case[k] for k in ('n', 'al', 'au', 'bl', 'bu', 'sym'))
+        outs = []
+        for env in ENVS:
+            r = results[env]['bdb'].get(case['id'])
+            if r is None:
+                continue
+            for name in ('wrapper', 'kernel', 'py_func'):
+                if name in r:
+                    outs.append((env, name, r[name]))
+                elif name + '_exc' in r:
+                    good = False
+                    ctx.fail(f'beads-product:{name}:raises', f'_banded_dot_banded{(n, al, au, bl, bu, bool(sym))} raised {r[name + "_exc"]} '
+                             f'(numba blocked={env[0]})', {'kind': 'bdb', 'case': case, 'env': env})
+        ctx.case(('bdb', n, al, au, bl, bu, sym, json.dumps(case['a']), json.dumps(case['b'])), nontrivial=n > 1,
+                 kind=f'bdb:sym={sym}:clamped={int(au + bu > n - 1 or al + bl > n - 1)}')
+        ker = [o for o in outs if o[1] in ('kernel', 'py_func')]
+        wr = [o for o in outs if o[1] == 'wrapper']
+        if not ker or not wr:
+            continue
+        for grp in (ker, wr):
+            for o in grp[1:]:
+                if o[2] != grp[0][2]:
+                    good = False
+                    ctx.fail('beads-product:numba-vs-python', f'_banded_dot_banded{(n, al, au, bl, bu, bool(sym))}: {o[1]} output under numba '
+                             f'blocked={o[0][0]} differs from {grp[0][1]} under numba blocked={grp[0][0][0]}', {'kind': 'bdb', 'case': case})
+        # independent dense product
+        A, B = dense_of_bands(case['a'], al, au, n), dense_of_bands(case['b'], bl, bu, n)
+        C = [[sum(A[i][k] * B[k][j] for k in range(n)) for j in range(n)] for i in range(n)]
+        cu, cl = min(au + bu, n - 1), min(al + bl, n - 1)
+        W = wr[0][2]
+        clamped = (al + bl > n - 1) or (au + bu > n - 1)
+        if not (sym and clamped):       # the clamped symmetric completion is outside the theorem (source TODO)
+            for i in range(n):
+                for j in range(n):
+                    want = C[j][i] if (sym and i > j) else C[i][j]     # symmetric_output mirrors the computed upper bands
+                    if -cu <= i - j <= cl and W[cu + i - j][j] != want:
+                        good = False
+                        ctx.fail(f'beads-product:value:sym={sym}', f'_banded_dot_banded{(n, al, au, bl, bu, bool(sym))}: band entry for '
+                                 f'({i},{j}) is {W[cu + i - j][j]} but the product has {want}', {'kind': 'bdb', 'case': case})
+                        break
+        ek, ew = exact_ints(ker[0][2]), exact_ints(W)
+        if ek is None or ew is None:
+            good = False
+            ctx.broke(ob, 'non-integer output for integer band arrays')
+            continue
+        lits.append(f'(({al}, {au}, {bl}, {bu}, {coqbool(sym)}), {zlist2(case["a"])}, {zlist2(case["b"])}, {zlist2(ek)}, {zlist2(ew)})')
+    per = 80
+    shards = [lits[k:k + per] for k in range(0, len(lits), per)]
+    for k, sh in enumerate(shards):
+        text = BDB_HEADER + f"""
+Definition cases : list case_t := [
+{chr(10).join('  ' + l + (';' if i + 1 < len(sh) else '') for i, l in enumerate(sh))}
+].
+Eval vm_compute in (bad ok cases).
+"""
+        vals = ctx.coq_eval(f'bdb{k}', text)
+        if vals is None or not vals or not (vals[0].startswith('(0%nat, [])') or vals[0].startswith('(0, [])')):
+            good = False
+            if vals is not None:
+                ctx.broke(f'correspondence:bdb-shard{k}', f'model of _numba_banded_dot_banded / _banded_dot_banded and implementation disagree: {vals}')
+    ctx.traces += len(lits)
+    if good and lits:
+        ctx.discharged.append(ob)
+    return len(lits)
+
+
+# ------------------------------------------------------------------ growth: PSpline.solve_pspline, exact dyadic inputs
+def gen_ps_cases(ctx):
+    rng = ctx.rng
+    cases = []
+    for method in ('pspline_asls', 'pspline_arpls', 'pspline_iasls', 'pspline_aspls', 'pspline_drpls'):
+        for deg in (0, 1, 2):
+            for k in range(ctx.n(2, 5)):
+                seg = rng.choice([2, 4, 8])                  # num_knots - 1 inner segments, a power of two
+                per = rng.choice([1, 2, 4])                  # data points per segment
+                n = seg * per + 1
+                d = rng.choice([1, 2, 3])
+                if method in ('pspline_iasls', 'pspline_drpls'):
+                    d = max(d, 2)
+                if seg + deg <= d + 1:
+                    continue
+                x = [float(v) * (8.0 / (n - 1)) for v in range(n)]     # dyadic grid on [0, 8]
+                y = [rng.randint(-20, 20) for _ in range(n)]
+                w = [rng.choice([0, 1, 1, 2, 3]) for _ in range(n)]
+                kw = {'lam': float(2 ** rng.randint(0, 6)), 'num_knots': seg + 1, 'spline_degree': deg, 'diff_order': d, 'max_iter': 0}
+                if method in ('pspline_asls', 'pspline_iasls'):
+                    kw['p'] = 0.25
+                if method == 'pspline_iasls':
+                    kw['lam_1'] = float(2 ** rng.randint(0, 3))
+                if method == 'pspline_drpls':
+                    kw['eta'] = float(rng.choice([0, 1]))
+                arrays = {'weights': w}
+                if method == 'pspline_aspls':
+                    arrays['alpha'] = [rng.choice([0, 1, 2, 3]) for _ in range(n)]
+                cases.append({'id': f'p{len(cases)}', 'method': method, 'x': x, 'y': y, 'kw': kw, 'arrays': arrays, 'bs_list': BS,
+                              'ncalls': 1, 'want_basis': True, 'N': n, 'd': d, 'deg': deg})
+    return cases
+
+
+def check_ps(ctx, cases, results):
+    """Exact (Fraction) equality of the system handed to the solver by PSpline.solve_pspline across numba
+    importable / blocked x banded_solver 1-4, of the design matrix itself, and -- for pspline_asls/arpls --
+    with B'WB + lam D'D, B'Wy computed independently from the captured design matrix."""
+    ob = 'correspondence:PSpline.solve_pspline(numba accumulation vs sparse product; 16 configurations; exact dyadic inputs)'
+    ctx.obligations.append(ob)
+    good = True
+    ncmp = 0
+    for case in cases:
+        ref = None
+        for env in ENVS:
+            cap = results[env]['capture'].get(case['id'])
+            if cap is None:
+                continue
+            for bs in BS:
+                r = cap[str(bs)]
+                key = {'kind': 'capture', 'method': case['method'], 'kw': case['kw'], 'y': case['y'], 'x': case['x'],
+                       'arrays': case['arrays'], 'N': None, 'call': 0}
+                ctx.case(('ps', case['id'], env, bs), nontrivial=bool(r['calls']), kind=f'pspline-capture:{case["method"]}:deg={case["deg"]}:numba={1 - env[0]}')
+                if not r['calls']:
+                    good = False
+                    ctx.fail(f'pspline:{case["method"]}:no-solver-call', f'{case["method"]}({case["kw"]}): no solver call ({r["exc"]}) under '
+                             f'banded_solver={bs}, numba blocked={env[0]}', key)
+                    continue
+                call = r['calls'][0]
+                M = len(call['ab'][0])
+                key['N'] = M
+                try:
+                    A = densify(call, M)
+                except ValueError as e:
+                    good = False
+                    ctx.fail(f'pspline:{case["method"]}:dispatch', f'{case["method"]}: {e}', key)
+                    continue
+                b = [Fraction(float(v)) for v in call['b']]
+                Bm = [[Fraction(float(v)) for v in row] for row in r['basis']]
+                fl = r['flags'][0] if r['flags'] else [None]
+                if call['solver'] != ('solveh' if fl[0] else 'solve_banded') or (bs == 4 and call['solver'] != 'solve_banded'):
+                    good = False
+                    ctx.fail('pspline:dispatch:entry-point', f'{case["method"]}: banded_solver={bs} reached {call["solver"]}', key)
+                ncmp += 1
+                if ref is None:
+                    ref = (A, b, Bm, (env, bs))
+                    continue
+                for what, u, v in (('matrix', A, ref[0]), ('right-hand side', b, ref[1]), ('design matrix', Bm, ref[2])):
+                    if u != v:
+                        good = False
+                        ctx.fail(f'pspline:{case["method"]}:{what.replace(" ", "-")}', f'{case["method"]}({case["kw"]}) on the dyadic grid n={case["N"]}: the '
+                                 f'{what} under banded_solver={bs}, numba blocked={env[0]}, pentapy blocked={env[1]} differs from the one under {ref[3]}', key)
+        if ref is not None and case['method'] in ('pspline_asls', 'pspline_arpls'):
+            A, b, Bm, _ = ref
+            n, M, d = len(Bm), len(Bm[0]), case['d']
+            w = [Fraction(v) for v in case['arrays']['weights']]
+            y = [Fraction(v) for v in case['y']]
+            D = [[Fraction(int(i == j)) for j in range(M)] for i in range(M)]
+            for _ in range(d):
+                D = [[D[i + 1][j] - D[i][j] for j in range(M)] for i in range(len(D) - 1)]
+            lam = Fraction(case['kw']['lam'])
+            for r_ in range(M):
+                for c_ in range(M):
+                    want = sum(Bm[i][r_] * Bm[i][c_] * w[i] for i in range(n)) + lam * sum(D[k][r_] * D[k][c_] for k in range(len(D)))
+                    if A[r_][c_] != want:
+                        good = False
+                        ctx.fail(f'pspline:{case["method"]}:documented', f'{case["method"]}({case["kw"]}): entry ({r_},{c_}) of the system is {A[r_][c_]} '
+                                 f"but B'WB + lam D'D has {want}", {'kind': 'capture', 'method': case['method']})
+                        break
+            if b != [sum(Bm[i][r_] * w[i] * y[i] for i in range(n)) for r_ in range(M)]:
+                good = False
+                ctx.fail(f'pspline:{case["method"]}:documented-rhs', f"{case['method']}({case['kw']}): right-hand side is not B'Wy", {'kind': 'capture', 'method': case['method']})
+    if good and ncmp:
+        ctx.discharged.append(ob)
+    return ncmp
+
+
+# ------------------------------------------------------------------ growth: beads on very short data
+def tiny_beads_jobs(ctx):
+    jobs = []
+    for n in (3, 4, 5, 6, 8, 9, 12):
+        for ft in (1, 2):
+            y = [float(ctx.rng.randint(0, 9)) + 0.25 * k for k in range(n)]
+            jobs.append({'id': f't{len(jobs)}', 'method': 'beads', 'n': n, 'seed': 0, 'y': y, 'bs_list': [2], 'tag': 'beads-tiny',
+                         'kw': {'freq_cutoff': 0.1, 'filter_type': ft, 'max_iter': 2, 'tol': 0.0, 'fit_parabola': False}})
+    return jobs
+
+
+def check_tiny_beads(ctx, jobs, results):
+    for job in jobs:
+        ft, n = job['kw']['filter_type'], job['n']
+        got = {env: results[env]['oracle'].get(job['id'], {}).get('2') for env in ENVS}
+        if any(v is None for v in got.values()):
+            continue
+        ctx.case(('tiny-beads', n, ft), nontrivial=True, kind='oracle:beads-tiny')
+        excs = {env: v.get('exc') for env, v in got.items()}
+        if len(set(excs.values())) > 1:
+            with_nb = sorted({str(excs[e]) for e in ENVS if not e[0]})
+            without = sorted({str(excs[e]) for e in ENVS if e[0]})
+            ctx.fail('oracle:beads:short-data:numba-only-exception',
+                     f'beads(filter_type={ft}) on {n} data points: with numba importable -> {with_nb} '
+                     f'(None = a baseline is returned), with numba blocked -> {without}; the banded path (_banded_dot_vector on the '
+                     f'{4 * ft + 1}-band B @ B) needs n >= {4 * ft + 1}, the sparse path does not',
+                     {'kind': 'oracle', 'job': dict(job, id='t'), 'block_numba': 1, 'block_pentapy': 0, 'bs': 2})
+
+
 # ------------------------------------------------------------------ direct oracle
 LOOPY = set(methods.SCHEMA_1D)
 
@@ -630,11 +893,14 @@ def run(ctx):
         'rounding differences between solvers are outside the proof; the oracle tolerances are calibrated, not derived',
     ]
     ctx.gate()
-    ctx.translate(['GenBands', 'GenC10'])
+    ctx.translate(['GenBands', 'GenC10'])   # GenC10 also pins the beads kernel loop nest and the shared beads statements
     ok = ctx.build_props()
     # ---- workers: capture + facts + oracle
     cases = gen_capture_cases(ctx)
     jobs = oracle_jobs(ctx)
+    bdb_cases = gen_bdb_cases(ctx)
+    ps_cases = gen_ps_cases(ctx)
+    tiny = tiny_beads_jobs(ctx)
     tasks, owners = [], []
     for env in ENVS:
         nch = 4 if env[0] else (3 if env == REF[0] else 2)
@@ -642,7 +908,8 @@ def run(ctx):
         for ci, ch in enumerate(chunks):
             if env == REF[0]:
                 ch = [dict(j, perturb=REF[1]) for j in ch]
-            job = {'facts': ci == 0, 'capture': cases if ci == 0 else [], 'oracle': ch}
+            job = {'facts': ci == 0, 'capture': (cases + ps_cases) if ci == 0 else [], 'oracle': ch + (tiny if ci == 0 else []),
+                   'bdb': bdb_cases if ci == 0 else []}
             tasks.append((env, job))
             owners.append(env)
     try:
@@ -652,14 +919,19 @@ def run(ctx):
         return
     results = {}
     for env, out in zip(owners, outs):
-        r = results.setdefault(env, {'facts': None, 'capture': {}, 'oracle': {}})
+        r = results.setdefault(env, {'facts': None, 'capture': {}, 'oracle': {}, 'bdb': {}})
         if out['facts']:
             r['facts'] = out['facts']
         r['capture'].update(out['capture'])
         r['oracle'].update(out['oracle'])
+        r['bdb'].update(out.get('bdb') or {})
     check_facts(ctx, results)
     ncoq = correspondence(ctx, cases, results)
+    nbdb = check_bdb(ctx, bdb_cases, results)
+    nps = check_ps(ctx, ps_cases, results)
+    check_tiny_beads(ctx, tiny, results)
     nfail = compare_oracle(ctx, jobs, results)
+    ctx.note(f'{nbdb} banded-product cases evaluated inside Coq; {nps} exact P-spline system captures compared across configurations')
     ctx.note(f'{len(cases)} capture cases x 16 configurations ({ncoq} evaluated inside Coq); {len(jobs)} oracle jobs x 16 configurations, '
              f'{nfail} oracle failures; worst relative deviations per class: {ctx.extra.get("oracle_worst_relative_deviation")}')
     ctx.note('not covered: 2-D methods (Baseline2D does not read banded_solver; its numba use is the shared spline kernels), '
